@@ -339,6 +339,9 @@ pub struct BlockSpec {
   /// include the broadcast-but-unmined transactions first (tier 3)
   #[serde(default)]
   pub include_mempool: bool,
+  /// with `include_mempool`: only the first n of them (the rest stay unmined)
+  #[serde(default)]
+  pub mempool_limit: Option<u32>,
 }
 
 // ---------------------------------------------------------------------- faults
@@ -451,6 +454,20 @@ pub enum WalletCmd {
   BurnRune { rune: u32, amount: AmountSel, fee_rate: u32 },
   Mint { rune: u32, fee_rate: u32 },
   Split { outputs: Vec<SplitOut>, fee_rate: u32 },
+  /// `wallet batch`: 0 separate-outputs, 1 shared-output, 2 same-sat
+  Batch {
+    mode: u8,
+    count: u8,
+    /// k-th inscriptions held by the wallet (modulo), as parents
+    parents: Vec<u32>,
+    postage: Option<u64>,
+    /// pay the inscriptions to foreign addresses (separate-outputs only)
+    foreign_destinations: bool,
+    /// delegate to the k-th known inscription
+    delegate: Option<u32>,
+    metadata: bool,
+    fee_rate: u32,
+  },
 }
 
 #[derive(Clone, Debug, PartialEq, Eq, Serialize, Deserialize)]
